@@ -1,6 +1,6 @@
 (* C16 - The image builder obeys its layout laws.   Property theorems only. *)
 From Coq Require Import List NArith Arith.
-From MDW Require Import Bytes MemWriter Text MemOps MemOpsProofs.
+From MDW Require Import Bytes MemWriter Text MemOps MemOpsProofs MemSeqProofs.
 Import ListNotations.
 Local Open Scope nat_scope.
 
@@ -48,6 +48,34 @@ Theorem C16_string_stored : forall str,
                 /\ utf16_decode units = Some str.
 Proof. exact string_stored. Qed.
 Print Assumptions C16_string_stored.
+
+(* Sequences.  Every state reachable from the empty image by operations used as the writers use them (fills go to
+   slots handed out earlier with a value of the slot's size, array elements by an index below the count), of any
+   length, as long as the image stays below 4 GiB, keeps every handed-out slot inside the buffer ... *)
+Theorem C16_reachable_slots_inside : forall s, reach s -> slots_in s.
+Proof. exact reach_slots_in. Qed.
+Print Assumptions C16_reachable_slots_inside.
+
+(* ... so in every reachable state filling a reserved slot succeeds and changes only that slot, *)
+Theorem C16_reachable_fill_slot : forall s k v pos size,
+  reach s -> nth_error (singles s) k = Some (pos, size) -> length v = size ->
+  exists s' out, step s (OSet k v) = Ok (s', out) /\
+    length (buf s') = length (buf s) /\ slice (buf s') (N.to_nat pos) size = v /\
+    (forall o n, o + n <= N.to_nat pos -> slice (buf s') o n = slice (buf s) o n) /\
+    (forall o n, N.to_nat pos + size <= o -> slice (buf s') o n = slice (buf s) o n).
+Proof. exact reach_fill_slot. Qed.
+Print Assumptions C16_reachable_fill_slot.
+
+(* and storing element idx of a reserved array succeeds, lands at base + idx * element size and changes nothing else. *)
+Theorem C16_reachable_fill_element : forall s k idx v pos esz n,
+  reach s -> nth_error (arrays s) k = Some (pos, esz, n) -> length v = esz -> idx < n ->
+  exists s' out, step s (OSetAt k idx v) = Ok (s', out) /\
+    length (buf s') = length (buf s) /\ slice (buf s') (N.to_nat pos + idx * esz) esz = v /\
+    (forall j, j < n -> j <> idx -> slice (buf s') (N.to_nat pos + j * esz) esz = slice (buf s) (N.to_nat pos + j * esz) esz) /\
+    (forall o m, o + m <= N.to_nat pos -> slice (buf s') o m = slice (buf s) o m) /\
+    (forall o m, N.to_nat pos + n * esz <= o -> slice (buf s') o m = slice (buf s) o m).
+Proof. exact reach_fill_element. Qed.
+Print Assumptions C16_reachable_fill_element.
 
 (* the hypotheses are satisfiable: a concrete non-trivial run *)
 Example C16_nonvacuous :
